@@ -27,9 +27,28 @@
       21  descendants' rows FAILED/CANCELLED           <->  C02_marked, C02_marked_in_poll
       22  dead node's own row FAILED/CANCELLED/TIMEDOUT<->  C02_stays (st_fc), C02_marked_in_poll
       23  a FAILED/CANCELLED row has a cause            <->  C02_exact_poll, C02_exact
-      24  the rest runs                                 <->  C02_rest_runs (state level). *)
+      24  the rest runs                                 <->  C02_rest_runs (state level).
+    All five codes are PROVED silent on the model trace: C02_monitor. *)
 From MWF Require Import Base.Util Exec.ExecBase Exec.ExecGen Exec.ExecRun Exec.ExecTrace Exec.ExecGraph
-     Exec.ExecPoll Exec.ExecPoll2 Exec.ExecPoll3 Exec.ExecPoll4 Exec.ExecHist Exec.ExecC02 Exec.ExecC0206Ex.
+     Exec.ExecPoll Exec.ExecPoll2 Exec.ExecPoll3 Exec.ExecPoll4 Exec.ExecHist Exec.ExecC02 Exec.ExecMon2
+     Exec.ExecC0206Ex.
+
+(** THE MONITOR IS SILENT ON THE MODEL.  [prop_ok 2] is the predicate the correspondence run evaluates,
+    inside Coq, on the IMPLEMENTATION's recorded trace of every case: none of the codes 2, 21, 22, 23,
+    24 of Exec/ExecTrace.v is raised.  The monitor keeps its own ledger of "dead" nodes (own FAILED /
+    UNKNOWN / CANCELLED report, TIMEDOUT not followed by a successful restart, submission attempts
+    all failed) and of succeeded nodes, and checks at every adapter call and on every poll's status
+    rows: no submission of a descendant of a dead node (2), every descendant's row FAILED/CANCELLED
+    (21), the dead node's own row FAILED/CANCELLED/TIMEDOUT (22), every FAILED/CANCELLED row
+    explained by a dead ancestor or by a cancel request (23), and at a FINISHED/FAILURE verdict every
+    other node succeeded (24).  On the model's own trace this holds for every graph, configuration
+    and history ([attempts >= 1] is what the ExecutionGraph constructor enforces). *)
+Theorem C02_monitor : forall c g ps, wf_graph g = true -> 0 < attempts c ->
+  valid_pins c g (init g) ps = true -> prop_ok 2 c g ps (run c g (init g) ps) = true.
+Proof. exact C02_monitor_wf. Qed.
+Print Assumptions C02_monitor.
+
+(** The same facts, and more, stated on the states and adapter calls of the run: *)
 
 (** Once a node is failed or cancelled at the end of a poll, neither it nor any of its
     descendants is submitted (main or restart script, scheduler or local) in any later poll. *)
@@ -130,9 +149,7 @@ Print Assumptions C02_rest_runs.
 
 (** What is NOT proved here: that such a normal termination is eventually reached (C05's liveness,
     exec-live), and that a completed step had an own ESubmit and a FINISHED report (the ledger
-    coupling of C01/C04, exec-ledger).  Monitor family 2 itself (codes 2, 21-24, which read the
-    ledger's dead / succeeded sets) is not proved silent on the model trace here; it is evaluated at
-    run time on the implementation's and on the model's trace of every correspondence case. *)
+    coupling of C01/C04, exec-ledger). *)
 
 (** Non-vacuity.  Steps 0 -> 1 and an independent step 2: the hypotheses hold; poll 2 delivers
     FAILED to step 0, after it 0 and 1 are failed with rows FAILED while 2 keeps running; poll 3
